@@ -5,3 +5,4 @@ Definition signature_length : N := 65%N.
 Definition prevote_type : Z := 1%Z.
 Definition precommit_type : Z := 2%Z.
 Definition proposal_type : Z := 32%Z.
+Definition max_block_parts_count : N := 1601%N.
